@@ -153,9 +153,10 @@ impl Model {
                     }
                 }
                 ex.out.lens.push(hi - lo);
-                let (vals, count) = end.expected(&items[lo..hi]);
+                let target = end.index().and_then(|j| items.get(j).copied());
+                let (vals, nums) = end.expected(&items[lo..hi], target);
                 ex.out.vals.extend(vals);
-                ex.out.lens.extend(count);
+                ex.out.lens.extend(nums);
                 if let Some((a, b)) = cloned {
                     ex.out.lens.push(b - a);
                     ex.out.vals.extend(items[a..b].iter().map(|i| Val::Id(*i)));
@@ -485,9 +486,20 @@ impl Model {
         }
         ex.out.lens.push(hi - lo);
         if !ex.out.panicked {
-            let (vals, count) = end.expected(&range[lo..hi]);
+            // the element that was at absolute index j before the operation (the range has already been cut out of the model)
+            let target = end.index().and_then(|j| {
+                let r = range.len();
+                if j < a {
+                    self.vecs[v].get(j).copied()
+                } else if j < a + r {
+                    Some(range[j - a])
+                } else {
+                    self.vecs[v].get(j - r).copied()
+                }
+            });
+            let (vals, nums) = end.expected(&range[lo..hi], target);
             ex.out.vals.extend(vals);
-            ex.out.lens.extend(count);
+            ex.out.lens.extend(nums);
         }
         if *end == End::Forget {
             // documented leak: everything at or after the range start may be missing
